@@ -1,7 +1,8 @@
 #!/bin/bash
 # usage: tools/run_all_seeded.sh [seed]   -- runs every seeded change against the quick check of its own property
 # and writes seeded/<id>/result-seed<seed>.txt (CAUGHT / MISSED / INCONCLUSIVE line).
-cd /verif
+VERIF="${VERIF:-/verif}"; export VERIF
+cd "$VERIF"
 SEED="${1:-0}"
 for d in seeded/C*-*/; do
     name=$(basename "$d"); prop=${name%%-*}
